@@ -187,6 +187,11 @@ func C10(c *Ctx) error {
 								}
 								ks.op = op
 							}
+							// a third of the cases register the services anew, AFTER registrations made with other hooks
+							// in the same process: options given to one Register call must not reach another
+							if rr.P(1, 3) {
+								ks.op["fresh_mux"] = true
+							}
 							all = append(all, ks)
 						}
 					}
@@ -423,6 +428,9 @@ func C10(c *Ctx) error {
 		}
 	} else {
 		res.Note("node 22 not found: the TS client's error mapping is not exercised")
+	}
+	if err := c10TSServer(c, its); err != nil {
+		return err
 	}
 	res.Programs = len(items)
 	return nil
